@@ -11,6 +11,26 @@ ASSUME_WB = [
 ]
 
 PROPS = {
+    "C01": dict(
+        rule="case = pre-existing well-formed file(s) + 1-4 tests (prefix-related names) with 1-14 MatchSnapshot/MatchJSON/MatchYAML calls each; "
+             "run 1 records with updating enabled, run 2 replays the same calls read-only (default / Update(false) / CI / UPDATE_SNAPS=clean) in a permuted test order. "
+             "non-trivial = the case contains a terminator/escape line, blank line, edge newline, empty body, header-looking line, invalid UTF-8, a line > 64 KiB, "
+             ">= 10 calls in one test, >= 2 entry kinds in one file, a structured Go value, or pre-existing entries; distinct = distinct canonical JSON",
+        assumptions=ASSUME_WB + ["carriage return at the end of a line (documented limitation) is excluded by construction and counted"],
+        stages=[dict(name="replay", run="^TestC01_", quick=1000, thorough=6000, shards_quick=4, shards_thorough=16)],
+    ),
+    "C02": dict(
+        rule="case = (stored value, received value) whose formatted texts differ, API in all five, second process in a non-updating mode "
+             "(default / Update(false) / CI / UPDATE_SNAPS=clean / other strings), colours on or off. Pairs come from 1-2 edits of a hostile text "
+             "(byte flip/insert/delete, edge newline, whitespace, invalid UTF-8 swap, U+FFFD vs invalid byte, line dup/delete/replace/move), independent texts, "
+             "JSON value mutations and YAML text edits. non-trivial = pair differs only in edge newlines, only in whitespace, only in invalid UTF-8, in exactly one byte, "
+             "takes the inline (coloured single-line) path, or is a JSON value change; distinct = distinct canonical JSON",
+        assumptions=ASSUME_WB + ["known finding K1 (`---` vs `/-/-/-/` lines) is excluded by construction from the main campaign and probed by its own generator"],
+        stages=[
+            dict(name="changed", run="^TestC02_Changed$", quick=1500, thorough=20000, shards_quick=4, shards_thorough=16),
+            dict(name="k1probe", run="^TestC02K1_", quick=1500, thorough=20000, shards_quick=1, shards_thorough=1),
+        ],
+    ),
     "C13": dict(
         rule="cases are ordered pairs of texts (+ colour flag): exhaustive over line sequences of a 3-letter alphabet, "
              "random pairs from the hostile line alphabet related by 1-3 edits, and large texts (>10 / >=200 lines with popular lines). "
